@@ -74,7 +74,7 @@ pub fn classify_any(req: &crate::req::Req, resp: &crate::req::Resp) -> Vec<&'sta
         c06::classify(req, resp)
     } else if op.starts_with("mt.") || op.starts_with("x.") {
         c07::classify(req, resp)
-    } else if op == "sig.verify" || op == "sig.verify_sk" {
+    } else if op == "sig.verify" || op == "sig.verify_sk" || op == "sig.key_eq" {
         c09::classify(req, resp)
     } else if op == "sig.batch" {
         c13::classify(req, resp)
